@@ -154,7 +154,7 @@ def check_call(scn: dict, cf, out: list) -> None:
                 if val is not None and val not in holds:
                     out.append(V("R6", f"{what} stop reason {val} does not hold (holds: {'+'.join(sorted(holds)) or 'none'})",
                                  {"call": cf.cid, "attempt": a.k, "entry": entry, "source": src if what == "delivered" else tev}))
-            if delivered is None and tag is None and cf.end["how"] == "outcome":
+            if delivered is None and cf.end["how"] == "outcome":
                 out.append(V("R6", "failed run delivered no stop reason", {"call": cf.cid, "entry": entry}))
 
 
